@@ -8,9 +8,10 @@
    all happen before any write-locked section (a writer waits for every admitted reader), together
    with at most one other PeerManager call w that is already waiting for the write lock.
      - lookups hit: every caller returns the table's process, then w runs;
-     - lookups miss: w and the k write-locked getOrCreate sections run one after the other.  The
-       harness never combines a miss with w = Disconnected of the same peer (the only combination whose
-       result depends on which writer wins), so the model runs w first.
+     - lookups miss: w and the k write-locked getOrCreate sections run one after the other, in an
+       order the Go mutex does not determine.  The harness only combines a miss with writers that
+       commute with getOrCreate p (not Disconnected p; not a Connected that creates another peer's
+       process, whose number would depend on the order), so the model may run w first.
    Every group is a sequence of PeerMgr labels (gexpand), so every invariant proved over all label
    sequences holds in every state a group run can reach. *)
 From Coq Require Import List NArith Bool Lia.
